@@ -502,7 +502,7 @@ func seqOp(r *h.Rand, nkeys int, conflict float64, tmax int64) string {
 }
 
 func gen(r *h.Rand, tier string, emit func([]string)) {
-	nSeq, nConc := 2500, 1500
+	nSeq, nConc := 2500, 600
 	if tier == "thorough" {
 		nSeq, nConc = 40000, 20000
 	}
